@@ -372,6 +372,17 @@ func wsEcho(req *rawhttp.Message, conn net.Conn, br *bufio.Reader) {
 		time.Sleep(50 * time.Millisecond)
 		return
 	}
+	if strings.Contains(req.Target, "/job-then-close/") {
+		// a job: three results, then a normal closure - the results are the client's to collect afterwards
+		t := req.Target[strings.LastIndexByte(req.Target, '/')+1:]
+		for k := 0; k < 3; k++ {
+			m := fmt.Sprintf("%s-r%d", t, k)
+			conn.Write(append([]byte{0x81, byte(len(m))}, m...))
+		}
+		conn.Write([]byte{0x88, 2, 0x03, 0xe8})
+		time.Sleep(50 * time.Millisecond)
+		return
+	}
 	if strings.Contains(req.Target, "/stall-then-") {
 		// the backend stops reading (so the peer's writes back up), then ends the session: with a close frame (1001) or a reset
 		time.Sleep(1500 * time.Millisecond)
